@@ -211,7 +211,7 @@ func selfTest(vd, repo, id string) *selfTestResult {
 	exe, _ := os.Executable()
 	var mu sync.Mutex
 	var wg sync.WaitGroup
-	sem := make(chan struct{}, 8)
+	sem := make(chan struct{}, 14)
 	for _, j := range jobs {
 		wg.Add(1)
 		sem <- struct{}{}
